@@ -1,21 +1,38 @@
 """Registry: external type declarations, unit groups, property -> groups."""
 
 # emitted (in lib.rs) for every type a unit uses that no active unit wraps
+def _opaque(name, path):
+    return '#[verifier::external_type_specification] #[verifier::external_body] pub struct Ex%s(%s);' % (name, path)
+
+
 TYPE_EXT = {
-    'Heap': '#[verifier::external_type_specification] #[verifier::external_body] pub struct ExHeap(crate::vm::heap::Heap);',
-    'Stack': '#[verifier::external_type_specification] #[verifier::external_body] pub struct ExStack(crate::vm::stack::Stack);',
-    'GlobalEnvironment': '#[verifier::external_type_specification] #[verifier::external_body] pub struct ExGlobalEnvironment(crate::vm::environment::GlobalEnvironment);',
-    'StackTrace': '#[verifier::external_type_specification] #[verifier::external_body] pub struct ExStackTrace(crate::vm::trace::StackTrace);',
-    'VCell': '''#[verifier::external_type_specification] #[verifier::external_body] pub struct ExVCell(crate::vm::vcell::VCell);
+    'Heap': {'decl': _opaque('Heap', 'crate::vm::heap::Heap')},
+    'Stack': {'decl': _opaque('Stack', 'crate::vm::stack::Stack')},
+    'GlobalEnvironment': {'decl': _opaque('GlobalEnvironment', 'crate::vm::environment::GlobalEnvironment')},
+    'StackTrace': {'decl': _opaque('StackTrace', 'crate::vm::trace::StackTrace')},
+    'Cell': {'decl': _opaque('Cell', 'crate::cell::Cell')},
+    'Error': {'decl': _opaque('Error', 'crate::error::Error')},
+    'Number': {'decl': _opaque('Number', 'crate::number::Number')},
+    'Vector': {'decl': _opaque('Vector', 'crate::vm::vector::Vector')},
+    'Continuation': {'decl': _opaque('Continuation', 'crate::vm::continuation::Continuation')},
+    'Lambda': {'decl': _opaque('Lambda', 'crate::vm::lambda::Lambda')},
+    'LexicalEnvironment': {'decl': _opaque('LexicalEnvironment', 'crate::vm::environment::LexicalEnvironment')},
+    'Transform': {'decl': _opaque('Transform', 'crate::vm::transform::Transform')},
+    'BuiltInProc': {'decl': _opaque('BuiltInProc', 'crate::vm::vcell::BuiltInProc')},
+    'OpCode': {'decl': _opaque('OpCode', 'crate::vm::opcode::OpCode')},
+    'RefCell': {'decl': '#[verifier::external_type_specification] #[verifier::external_body] #[verifier::reject_recursive_types(T)] pub struct ExRefCell<T: ?Sized>(core::cell::RefCell<T>);'},
+    # VCell is transparent (variants visible to contracts); its payload types are opaque
+    'VCell': {'decl': '''#[verifier::external_type_specification] pub struct ExVCell(crate::vm::vcell::VCell);
 pub assume_specification [<crate::vm::vcell::VCell as Clone>::clone] (a: &crate::vm::vcell::VCell) -> (r: crate::vm::vcell::VCell) ensures r == *a;''',
-    'Cell': '#[verifier::external_type_specification] #[verifier::external_body] pub struct ExCell(crate::cell::Cell);',
-    'Error': '#[verifier::external_type_specification] #[verifier::external_body] pub struct ExError(crate::error::Error);',
+              'needs': ['Number', 'Vector', 'Continuation', 'Lambda', 'LexicalEnvironment', 'Transform', 'BuiltInProc', 'OpCode', 'RefCell']},
 }
 
 # verus groups: one Verus run each
 GROUPS = {
     'num': ['number'],
     'run': ['vm_struct', 'run'],
+    'gc': ['gc'],
+    'heap': ['gc', 'heap'],
 }
 
 PROPS = {
